@@ -175,6 +175,18 @@ func cmdCheck(args []string) int {
 		fmt.Printf("  %s[%s]: re-running (helper lemma unproved=%v, invariant broken=%v)\n", r.Job, paramStr(r.Params), bad, badInv)
 		js := jobByName0(spec.Jobs, r.Job)
 		lemmasOff, invNoAssume = bad, badInv
+		// the re-run looks for counterexamples (sat is found quickly); unsat obligations
+		// that needed the lemmas may be out of reach, so cap the per-query time
+		js2 := *js
+		if bad {
+			if js2.Timeout == 0 || js2.Timeout > 40 {
+				js2.Timeout = 40
+			}
+			if len(js2.Solvers) == 0 {
+				js2.Solvers = []string{"z3-new", "cvc5"}
+			}
+		}
+		js = &js2
 		nr := runInstance(loaded[js.Pkg+"|"+js.Harness], js, r.Params, pools, pools["z3-new"])
 		lemmasOff, invNoAssume = false, false
 		solveAll([]*InstanceResult{nr}, pools, 16)
